@@ -103,8 +103,13 @@ CHECKS["C07"] = {
   "note": "what svds/eigsh/eigh return is trusted by contract (unit norm, zero line => zero entry, ascending eigenvalues), validated against the real routines on each replay; sample/feature duality and PCov-CUR(mixing=1)==CUR only as equality of arguments; PCov-CUR feature direction outside",
   "technique": TECH,
 }
+CHECKS["C13"] = {
+  "text": "The eight public reconstruction-measure functions (GRE, GRD, LRE; pointwise and global) are executed with the real StandardFlexibleScaler, a user-supplied closed-form least-squares estimator and, for GRD, the real OrthogonalRegression, on a training block from the factor family plus fully symbolic test rows and explicit index choices: GRE(X, XA) == 0, GRD(X, XQ) == 0, pointwise >= 0, global == RMS of pointwise for the same index choice (all three measures), training-set GRE <= 1 through a certificate of identities used as lemmas, invariance under source rotations (GRE, LRE) and under rescaling / shifts of either space, LRE(all neighbours) == pointwise GRE, and definedness for X narrower / equal / wider than Y.",
+  "design_ref": "DESIGN.md 2/C13",
+  "note": "exact reals; estimator is the user-supplied least-squares estimator (the default Ridge2FoldCV inside the measures is outside); training block on the factor family; one repaired defect (GRD with X wider than Y)",
+  "technique": TECH,
+}
 NOT_APPLICABLE = {
- "C13": "not decided in this round: the reconstruction measures run their default estimator Ridge2FoldCV (fold SVDs of centred, scaled data whose singular frames are outside the verified-frame library) and, for GRD, OrthogonalRegression on top of it; the symbolic engine reaches both components separately (C10, C18, C11) a harness for GRE / LRE with the real StandardFlexibleScaler and a user-supplied closed-form least-squares estimator was written (attic/c13_unfinished.py) but none of its configurations finished within 500 s (gcd on the scaler + least-squares rational chains of a fully symbolic 4x2 matrix), so nothing is claimed. One defect seen by replay in the design round (GRD with X wider than Y raises a broadcast ValueError) is therefore neither claimed nor listed as found by a check.",
  "C17": "solver-based checking cannot decide the core of this property: score_samples is a log-sum-exp of Gaussians and the bandwidths come from data-dependent while-loops over exp / effective dimension (eigenvalues + log) / non-integer powers; z3 and cvc5 have no transcendental reasoning and uninterpreted exp/log leave the mixture formula, positive definiteness after shrinkage and translation invariance of the log-density undecided. The decidable fragment (nearest-grid assignment, weight sums, free-space covariance algebra) was not built in the time available, so nothing is claimed.",
  "C19": "the property is about scipy.spatial.ConvexHull (qhull) output; encoding it needs a stub of the convex hull by its definition (facets = d-subsets with all points on one side, general position assumed) plus interp1d / LinearNDInterpolator stubs; this stub was designed (DESIGN.md history) but not built and validated against qhull in the time available, so the property is not claimed rather than checked with another technique.",
 }
